@@ -1,60 +1,450 @@
 (* Runner for the extracted models: ./runner <domain> < script > canonical output.
    Numbers travel as decimal strings; Zarith is used only to parse/print them. *)
-open Model
+open Datatypes
+open BinNums
+open Res
 
 let rec pos_of_z (z : Z.t) : positive =
-  if Z.equal z Z.one then XH
-  else if Z.is_even z then XO (pos_of_z (Z.shift_right z 1))
-  else XI (pos_of_z (Z.shift_right z 1))
-let n_of_z (z : Z.t) : n = if Z.sign z <= 0 then N0 else Npos (pos_of_z z)
+  if Z.equal z Z.one then Coq_xH
+  else if Z.is_even z then Coq_xO (pos_of_z (Z.shift_right z 1))
+  else Coq_xI (pos_of_z (Z.shift_right z 1))
+let n_of_z (z : Z.t) : coq_N = if Z.sign z <= 0 then N0 else Npos (pos_of_z z)
 let rec z_of_pos = function
-  | XH -> Z.one
-  | XO p -> Z.shift_left (z_of_pos p) 1
-  | XI p -> Z.succ (Z.shift_left (z_of_pos p) 1)
+  | Coq_xH -> Z.one
+  | Coq_xO p -> Z.shift_left (z_of_pos p) 1
+  | Coq_xI p -> Z.succ (Z.shift_left (z_of_pos p) 1)
 let z_of_n = function N0 -> Z.zero | Npos p -> z_of_pos p
 let n_of_string s = n_of_z (Z.of_string s)
 let string_of_n x = Z.to_string (z_of_n x)
 let b2s b = if b then "1" else "0"
 
-let split_ws s = List.filter (fun x -> x <> "") (String.split_on_char ' ' (String.trim s))
+let split_ws s = Stdlib.List.filter (fun x -> x <> "") (String.split_on_char ' ' (String.trim s))
 
 (* ---------------- leaf domain (C16) ---------------- *)
 let leaf_line toks =
   match toks with
   | ["pack"; i; v; w] ->
       let i = n_of_string i and v = n_of_string v and w = n_of_string w in
-      let h = Entity.reset_3 N0 i v w in
-      Printf.printf "pack %s %s %s %s\n" (string_of_n h) (string_of_n (Entity.id h))
-        (string_of_n (Entity.version h)) (string_of_n (Entity.worldId h))
+      let h = EntityGen.Entity.reset_3 N0 i v w in
+      Printf.printf "pack %s %s %s %s\n" (string_of_n h) (string_of_n (EntityGen.Entity.id h))
+        (string_of_n (EntityGen.Entity.version h)) (string_of_n (EntityGen.Entity.worldId h))
   | ["unpack"; h] ->
       let h = n_of_string h in
-      Printf.printf "unpack %s %s %s %s\n" (string_of_n (Entity.id h)) (string_of_n (Entity.version h))
-        (string_of_n (Entity.worldId h)) (b2s (Entity.isNull h))
+      Printf.printf "unpack %s %s %s %s\n" (string_of_n (EntityGen.Entity.id h)) (string_of_n (EntityGen.Entity.version h))
+        (string_of_n (EntityGen.Entity.worldId h)) (b2s (EntityGen.Entity.isNull h))
   | ["next"; h] ->
       let h = n_of_string h in
-      Printf.printf "next %s %s\n" (string_of_n (Entity.makeEntityWithNextVersion h))
-        (string_of_n (Entity.incrementVersion h))
+      Printf.printf "next %s %s\n" (string_of_n (EntityGen.Entity.makeEntityWithNextVersion h))
+        (string_of_n (EntityGen.Entity.incrementVersion h))
   | ["setver"; h; v] ->
-      Printf.printf "setver %s\n" (string_of_n (Entity.setVersion (n_of_string h) (n_of_string v)))
+      Printf.printf "setver %s\n" (string_of_n (EntityGen.Entity.setVersion (n_of_string h) (n_of_string v)))
   | ["reset2"; h; i; v] ->
-      Printf.printf "reset2 %s\n" (string_of_n (Entity.reset_2 (n_of_string h) (n_of_string i) (n_of_string v)))
+      Printf.printf "reset2 %s\n" (string_of_n (EntityGen.Entity.reset_2 (n_of_string h) (n_of_string i) (n_of_string v)))
   | ["reset1"; h; i] ->
-      Printf.printf "reset1 %s\n" (string_of_n (Entity.reset_1 (n_of_string h) (n_of_string i)))
+      Printf.printf "reset1 %s\n" (string_of_n (EntityGen.Entity.reset_1 (n_of_string h) (n_of_string i)))
   | ["reset0"; h] ->
-      Printf.printf "reset0 %s\n" (string_of_n (Entity.reset_0 (n_of_string h)))
+      Printf.printf "reset0 %s\n" (string_of_n (EntityGen.Entity.reset_0 (n_of_string h)))
   | ["eq"; a; b] ->
       let a = n_of_string a and b = n_of_string b in
-      Printf.printf "eq %s %s %s\n" (b2s (Entity.op_eq a b)) (b2s (Entity.op_ne a b)) (b2s (Entity.op_lt a b))
+      Printf.printf "eq %s %s %s\n" (b2s (EntityGen.Entity.op_eq a b)) (b2s (EntityGen.Entity.op_ne a b)) (b2s (EntityGen.Entity.op_lt a b))
   | ["align"; x; a] ->
       let x = n_of_string x and a = n_of_string a in
-      Printf.printf "align %s %s\n" (string_of_n (ComponentOffset.alignAs x a))
-        (string_of_n (ComponentOffset.makeAligned x a))
+      Printf.printf "align %s %s\n" (string_of_n (IdDeffGen.ComponentOffset.alignAs x a))
+        (string_of_n (IdDeffGen.ComponentOffset.makeAligned x a))
   | ["split"; i; c] ->
       let i = n_of_string i and c = n_of_string c in
-      Printf.printf "split %s %s\n" (string_of_n (ComponentStorageIndex.op_div i c))
-        (string_of_n (ComponentStorageIndex.op_mod i c))
+      Printf.printf "split %s %s\n" (string_of_n (IdDeffGen.ComponentStorageIndex.op_div i c))
+        (string_of_n (IdDeffGen.ComponentStorageIndex.op_mod i c))
   | [] -> ()
   | t :: _ -> Printf.printf "?? %s\n" t
+
+
+(* ---------------- shared helpers for script domains ---------------- *)
+let int_of_n x = Z.to_int (z_of_n x)
+let n_of_int i = n_of_z (Z.of_int i)
+let rec int_of_nat = function O -> 0 | S n -> 1 + int_of_nat n
+let rec nat_of_int i = if i <= 0 then O else S (nat_of_int (i - 1))
+
+let err_name = function
+  | OobIndex -> "OobIndex" | NullDeref -> "NullDeref" | Underflow -> "Underflow" | DivZero -> "DivZero"
+  | EmptyFunction -> "EmptyFunction" | ThrowInNoexcept _ -> "ThrowInNoexcept" | Throw _ -> "Throw"
+  | OutOfFuel -> "OutOfFuel"
+
+(* component registration: palette index -> component id, in order of first mention *)
+let cid_of_pal : (int, int) Hashtbl.t = Hashtbl.create 16
+let next_cid = ref 0
+let reg_pal p =
+  match Hashtbl.find_opt cid_of_pal p with
+  | Some c -> c
+  | None -> let c = !next_cid in incr next_cid; Hashtbl.add cid_of_pal p c; c
+
+let bits_of_key k =
+  let rec go i k acc = if k = 0 then Stdlib.List.rev acc else go (i + 1) (k lsr 1) (if k land 1 = 1 then i :: acc else acc) in
+  go 0 k []
+let mask_str k = match bits_of_key k with [] -> "-" | l -> String.concat "," (Stdlib.List.map string_of_int l)
+
+(* ---------------- skeleton domain (C01) ---------------- *)
+module Sk = struct
+  open Skeleton
+  let issued : (coq_N * coq_N) list ref = ref []
+  let hname h =
+    let rec find i = function
+      | [] -> Printf.sprintf "r%d:%d" (int_of_n (fst h)) (int_of_n (snd h))
+      | x :: t -> if x = h then "#" ^ string_of_int i else find (i + 1) t in
+    if int_of_n (fst h) = 1073741823 && int_of_n (snd h) = 16777215 then "null" else find 0 !issued
+  let parse_handle tok : coq_N * coq_N =
+    if tok = "null" then (n_of_int 1073741823, n_of_int 16777215)
+    else if tok.[0] = '#' then
+      (let k = int_of_string (String.sub tok 1 (String.length tok - 1)) in
+       try Stdlib.List.nth !issued k with _ -> (n_of_int 1073741823, n_of_int 16777215))
+    else if tok.[0] = 'v' then
+      (match String.split_on_char ':' (String.sub tok 1 (String.length tok - 1)) with
+       | [k; dv] -> let (i, v) = Stdlib.List.nth !issued (int_of_string k) in
+                    (i, n_of_int ((int_of_n v + int_of_string dv) land 0xFFFFFF))
+       | _ -> failwith "bad handle")
+    else failwith ("skeleton: unsupported handle token " ^ tok)
+  let key_of toks = Stdlib.List.fold_left (fun k t -> k lor (1 lsl (reg_pal (int_of_string t)))) 0 toks
+  let dump (s : st) =
+    print_string "V "; Stdlib.List.iter (fun h -> print_string (if is_valid s h then "1" else "0")) !issued; print_newline ();
+    Stdlib.List.iteri (fun ai a ->
+      Printf.printf "A %d m=%s e=%s\n" ai (mask_str (int_of_n a.a_key))
+        (match a.a_ents with [] -> "-" | l -> String.concat "," (Stdlib.List.map hname l))) s.archs;
+    Printf.printf "S %d%s\n" (Stdlib.List.length s.slots)
+      (String.concat "" (Stdlib.List.map (fun sl -> Printf.sprintf " %d:%d" (int_of_n sl.s_id) (int_of_n sl.s_ver)) s.slots));
+    Printf.printf "F %d %d%s\n" (int_of_n s.next_slot) (int_of_nat s.empty_slots)
+      (String.concat "" (Stdlib.List.map (fun i -> " " ^ string_of_int (int_of_n i)) (walk s.empty_slots s.next_slot s.slots)));
+    Printf.printf "L %d%s\n" (Stdlib.List.length s.locs)
+      (String.concat "" (Stdlib.List.map (fun l -> match l.l_arch with None -> " -" | Some a -> Printf.sprintf " %d:%d" (int_of_nat a) (int_of_nat l.l_idx)) s.locs));
+    Printf.printf "M%s\n" (String.concat "" (Stdlib.List.map (fun h -> " " ^ hname h) s.marked));
+    Printf.printf "K %d %d %d\n" (int_of_nat s.lockc) (int_of_n s.next_eid) (Stdlib.List.length s.bufs);
+    Stdlib.List.iteri (fun t b -> if b <> [] then begin
+      Printf.printf "B %d" t;
+      Stdlib.List.iter (fun c -> match c with
+        | CCreate (h, key) -> Printf.printf " 1:%s:%s" (hname h)
+            (if int_of_n key = 0 then "none" else String.concat "+" (Stdlib.List.map string_of_int (bits_of_key (int_of_n key))))
+        | CDestroy h -> Printf.printf " 2:%s" (hname h)
+        | CDestroyNow h -> Printf.printf " 0:%s" (hname h)) b;
+      print_newline () end) s.bufs
+  let run () =
+    let st = ref (init (nat_of_int 16)) in
+    let maxthr = ref 16 in
+    let dead = ref false in
+    let opn = ref 0 in
+    let started = ref false in
+    let start () = if not !started then (started := true; st := init (nat_of_int !maxthr)) in
+    (try while true do
+      let l = input_line stdin in
+      let toks = split_ws l in
+      (match toks with
+       | [] -> ()
+       | t :: _ when t.[0] = '#' -> ()
+       | "====" :: _ | _ when String.length l >= 4 && String.sub l 0 4 = "====" ->
+           print_endline l; Hashtbl.reset cid_of_pal; next_cid := 0; issued := []; st := init (nat_of_int !maxthr);
+           dead := false; opn := 0; started := false
+       | _ when !dead -> ()
+       | opname :: args ->
+           Printf.printf "op %d %s\n" !opn l; incr opn;
+           let apply o =
+             start ();
+             (match step !st o with
+              | Ok (s', oh) ->
+                  st := s';
+                  (match oh with Some h -> issued := !issued @ [h]; Printf.printf "R #%d\n" (Stdlib.List.length !issued - 1)
+                                | None -> (match o with
+                                           | Unlock -> print_endline (if int_of_nat s'.lockc = 0 then "R 1" else "R 0")
+                                           | _ -> print_endline "R"));
+                  dump s'
+              | Err e -> Printf.printf "ERR %s\n" (err_name e); dead := true) in
+           (match opname, args with
+            | "reg", p :: _ -> Printf.printf "R %d\n" (reg_pal (int_of_string p))
+            | "maxthreads", [n] -> maxthr := int_of_string n; print_endline "R"
+            | ("threads" | "chunkcap" | "regs"), _ -> print_endline "R"
+            | ("arm" | "disarm" | "verchunk"), _ -> start (); print_endline "R"; dump !st
+            | ("create" | "createarch"), tid :: pals -> apply (Create (nat_of_int (int_of_string tid), n_of_int (key_of pals)))
+            | "destroy", [tid; h] -> apply (Destroy (nat_of_int (int_of_string tid), parse_handle h))
+            | "destroynow", [tid; h] -> apply (DestroyNow (nat_of_int (int_of_string tid), parse_handle h))
+            | "cleararch", pals -> apply (ClearArch (n_of_int (key_of pals)))
+            | ("update" | "emupdate"), _ -> apply Update
+            | "lock", _ -> apply Lock
+            | "unlock", _ -> apply Unlock
+            | "valid", [h] -> start (); Printf.printf "R %s\n" (if is_valid !st (parse_handle h) then "1" else "0"); dump !st
+            | _ -> print_endline "R unsupported-op"; dead := true))
+    done with End_of_file -> ())
+end
+
+
+(* ---------------- skeleton specification domain (C01 tier A) ---------------- *)
+module SkS = struct
+  open SkelSpec
+  let parse_k tok =
+    if String.length tok > 0 && tok.[0] = '#' then int_of_string (String.sub tok 1 (String.length tok - 1)) else 1000000000
+  let key_of toks = Stdlib.List.fold_left (fun k t -> k lor (1 lsl (reg_pal (int_of_string t)))) 0 toks
+  let dump (sp : sst) =
+    let n = int_of_nat sp.sp_count in
+    let alive = Array.make n false in
+    Stdlib.List.iter (fun (k, _) -> let k = int_of_nat k in if k < n then alive.(k) <- true) sp.sp_alive;
+    print_string "V "; Array.iter (fun b -> print_string (if b then "1" else "0")) alive; print_newline ();
+    let keys = Stdlib.List.sort_uniq compare (Stdlib.List.map (fun (_, key) -> int_of_n key) sp.sp_alive) in
+    Stdlib.List.iter (fun key ->
+      let ks = Stdlib.List.sort compare (Stdlib.List.filter_map (fun (k, key') -> if int_of_n key' = key then Some (int_of_nat k) else None) sp.sp_alive) in
+      Printf.printf "AS m=%s e=%s\n" (mask_str key) (String.concat "," (Stdlib.List.map (fun k -> "#" ^ string_of_int k) ks))) keys
+  let run () =
+    let maxthr = ref 16 in
+    let sp = ref (sp_init (nat_of_int 16)) in
+    let started = ref false in
+    let dead = ref false in
+    let opn = ref 0 in
+    let start () = if not !started then (started := true; sp := sp_init (nat_of_int !maxthr)) in
+    (try while true do
+      let l = input_line stdin in
+      let toks = split_ws l in
+      (match toks with
+       | [] -> ()
+       | t :: _ when t.[0] = '#' -> ()
+       | _ when String.length l >= 4 && String.sub l 0 4 = "====" ->
+           print_endline l; Hashtbl.reset cid_of_pal; next_cid := 0; sp := sp_init (nat_of_int !maxthr);
+           dead := false; opn := 0; started := false
+       | _ when !dead -> ()
+       | opname :: args ->
+           Printf.printf "op %d %s\n" !opn l; incr opn;
+           let apply o = start (); sp := spec_step !sp o; dump !sp in
+           let ni s = nat_of_int (int_of_string s) in
+           (match opname, args with
+            | "reg", p :: _ -> ignore (reg_pal (int_of_string p))
+            | "maxthreads", [n] -> maxthr := int_of_string n
+            | ("threads" | "chunkcap" | "regs"), _ -> ()
+            | ("arm" | "disarm" | "verchunk" | "valid"), _ -> start (); dump !sp
+            | ("create" | "createarch"), tid :: pals -> apply (SoCreate (ni tid, n_of_int (key_of pals)))
+            | "destroy", [tid; h] -> apply (SoDestroy (ni tid, nat_of_int (parse_k h)))
+            | "destroynow", [tid; h] -> apply (SoDestroyNow (ni tid, nat_of_int (parse_k h)))
+            | "cleararch", pals -> apply (SoClearArch (n_of_int (key_of pals)))
+            | ("update" | "emupdate"), _ -> apply SoUpdate
+            | "lock", _ -> apply SoLock
+            | "unlock", _ -> apply SoUnlock
+            | _ -> print_endline "R unsupported-op"; dead := true))
+    done with End_of_file -> ())
+end
+
+
+(* ---------------- manager domain: the faithful model of EntityManager (tier B of C02/C03/C05/C07/C09/C11/C12/C13) ---- *)
+module Mg = struct
+  open Manager
+  let issued : (coq_N * coq_N) list ref = ref []
+  let sid_of : (int, int) Hashtbl.t = Hashtbl.create 4
+  let next_sid = ref 0
+  let reg_shared p = match Hashtbl.find_opt sid_of p with
+    | Some c -> c | None -> let c = !next_sid in incr next_sid; Hashtbl.add sid_of p c; c
+  let pal_flags : (int, int) Hashtbl.t = Hashtbl.create 16
+  let z_of_int i = let n = n_of_int (abs i) in
+    (match n with N0 -> Z0 | Npos p -> if i < 0 then Zneg p else Zpos p)
+  let int_of_coqz = function Z0 -> 0 | Zpos p -> Z.to_int (z_of_pos p) | Zneg p -> - (Z.to_int (z_of_pos p))
+  let null_h = (n_of_int 1073741823, n_of_int 16777215)
+  let hname h =
+    let rec find i = function
+      | [] -> Printf.sprintf "r%d:%d:0" (int_of_n (fst h)) (int_of_n (snd h))
+      | x :: t -> if x = h then "#" ^ string_of_int i else find (i + 1) t in
+    if h = null_h then "null" else find 0 !issued
+  let parse_handle tok =
+    let sub = String.sub tok 1 (String.length tok - 1) in
+    if tok = "null" then null_h
+    else if tok.[0] = '#' then (try Stdlib.List.nth !issued (int_of_string sub) with _ -> null_h)
+    else if tok.[0] = 'v' then
+      (match String.split_on_char ':' sub with
+       | [k; dv] -> (try let (i, v) = Stdlib.List.nth !issued (int_of_string k) in
+                      (i, n_of_int ((int_of_n v + int_of_string dv) land 0xFFFFFF)) with _ -> null_h)
+       | _ -> null_h)
+    else if tok.[0] = 'w' then null_h
+    else if tok.[0] = 'x' then
+      (let v = Z.of_string ("0x" ^ sub) in
+       let id = Z.to_int (Z.logand v (Z.of_int 0x3FFFFFFF)) in
+       let wid = Z.to_int (Z.logand (Z.shift_right v 30) (Z.of_int 1023)) in
+       let ver = Z.to_int (Z.shift_right v 40) in
+       if wid <> 0 then null_h else (n_of_int id, n_of_int ver))
+    else null_h
+  let parse_pals toks =
+    Stdlib.List.fold_left (fun (m, sids) t ->
+      if t.[0] = 's' then (m, sids @ [reg_shared (int_of_string (String.sub t 1 (String.length t - 1)))])
+      else (m lor (1 lsl (reg_pal (int_of_string t))), sids)) (0, []) toks
+  let cell_str = function None -> "*" | Some z -> string_of_int (int_of_coqz z)
+  let place_str = function
+    | PArch (a, c, sl) -> Printf.sprintf "a%d.%d.%d" (int_of_nat a) (int_of_nat c) (int_of_nat sl)
+    | PTmp (e, n) -> Printf.sprintf "t%d_%d" (int_of_nat e) (int_of_nat n)
+  let ev_str = function
+    | EvC (p, pl) -> Printf.sprintf "C:%d:%s" (int_of_nat p) (place_str pl)
+    | EvV (p, pl) -> Printf.sprintf "V:%d:%s" (int_of_nat p) (place_str pl)
+    | EvCP (p, d, s) -> Printf.sprintf "CP:%d:%s:%s" (int_of_nat p) (place_str d) (place_str s)
+    | EvMC (p, d, s) -> Printf.sprintf "MC:%d:%s:%s" (int_of_nat p) (place_str d) (place_str s)
+    | EvMA (p, d, s) -> Printf.sprintf "MA:%d:%s:%s" (int_of_nat p) (place_str d) (place_str s)
+    | EvD (p, pl) -> Printf.sprintf "D:%d:%s" (int_of_nat p) (place_str pl)
+    | EvAA (p, pl, h) -> Printf.sprintf "AA:%d:%s:%s" (int_of_nat p) (place_str pl) (hname h)
+    | EvBR (p, pl, h) -> Printf.sprintf "BR:%d:%s:%s" (int_of_nat p) (place_str pl) (hname h)
+  let shared_str (s : mst) (sh : shared_info) =
+    let ids = Stdlib.List.map int_of_nat sh.si_ids and data = Stdlib.List.map int_of_nat sh.si_data in
+    let rec go ids data = match ids, data with
+      | i :: it, d :: dt -> Printf.sprintf "%d:i%d:%d" i d (int_of_coqz (inst_value s (nat_of_int d))) :: go it dt
+      | i :: it, [] -> Printf.sprintf "%d:inull:0" i :: go it []
+      | [], d :: dt -> Printf.sprintf "?:i%d" d :: go [] dt
+      | [], [] -> [] in
+    match go ids data with [] -> "-" | l -> String.concat "," l
+  let items m = bits_of_key (int_of_n m)
+  let dump (s : mst) =
+    print_string "V "; Stdlib.List.iter (fun h -> print_string (if is_valid s h then "1" else "0")) !issued; print_newline ();
+    Stdlib.List.iteri (fun k h ->
+      if is_valid s h then begin
+        let l = Stdlib.List.nth s.locs (int_of_n (fst h)) in
+        match l.l_arch with
+        | None -> Printf.printf "H #%d - -\n" k
+        | Some ai ->
+          let a = Stdlib.List.nth s.archs (int_of_nat ai) in
+          let comps = items a.am_mask in
+          let strs = Stdlib.List.mapi (fun ci c ->
+            let inf = Stdlib.List.nth s.cinfos c in
+            if inf.ci_hasval then Printf.sprintf "%d=%s" c (cell_str (get_cell a (nat_of_int ci) l.l_idx)) else string_of_int c) comps in
+          Printf.printf "H #%d m=%s s=%s\n" k (match strs with [] -> "-" | l -> String.concat "," l) (shared_str s a.am_shared)
+      end) !issued;
+    Stdlib.List.iteri (fun ai a ->
+      Printf.printf "A %d m=%s s=%s cs=%d e=%s n=%d\n" ai (mask_str (int_of_n a.am_mask)) (shared_str s a.am_shared)
+        (int_of_nat a.am_chunk) (match a.am_ents with [] -> "-" | l -> String.concat "," (Stdlib.List.map hname l)) (int_of_nat a.am_size);
+      Printf.printf "T %d g=%s c=%s\n" ai (String.concat "," (Stdlib.List.map (fun v -> string_of_int (int_of_n v)) a.am_gver))
+        (String.concat "," (Stdlib.List.map (fun v -> string_of_int (int_of_n v)) a.am_cver))) s.archs;
+    Printf.printf "S %d%s\n" (Stdlib.List.length s.slots)
+      (String.concat "" (Stdlib.List.map (fun sl -> Printf.sprintf " %d:%d" (int_of_n sl.s_id) (int_of_n sl.s_ver)) s.slots));
+    (* free list walk *)
+    let rec walk n h acc = if n = 0 then Stdlib.List.rev acc else
+      (match Stdlib.List.nth_opt s.slots h with
+       | Some sl -> walk (n - 1) (int_of_n sl.s_id) (string_of_int h :: acc)
+       | None -> Stdlib.List.rev ("OOB" :: string_of_int h :: acc)) in
+    Printf.printf "F %d %d%s\n" (int_of_n s.next_slot) (int_of_nat s.empty_slots)
+      (String.concat "" (Stdlib.List.map (fun x -> " " ^ x) (walk (int_of_nat s.empty_slots) (int_of_n s.next_slot) [])));
+    Printf.printf "L %d%s\n" (Stdlib.List.length s.locs)
+      (String.concat "" (Stdlib.List.map (fun l -> match l.l_arch with None -> " -" | Some a -> Printf.sprintf " %d:%d" (int_of_nat a) (int_of_nat l.l_idx)) s.locs));
+    Printf.printf "M%s\n" (String.concat "" (Stdlib.List.map (fun h -> " " ^ hname h) s.marked));
+    Printf.printf "K %d %d %d\n" (int_of_nat s.lockc) (int_of_n s.next_eid) (Stdlib.List.length s.bufs);
+    Stdlib.List.iteri (fun t b -> if b <> [] then begin
+      Printf.printf "B %d" t;
+      Stdlib.List.iter (fun c -> match c with
+        | ACreate (h, has_action, m, _) -> Printf.printf " 1:%s:%s" (hname h)
+            (if not has_action then "none" else match items m with [] -> "-" | l -> String.concat "+" (Stdlib.List.map string_of_int l))
+        | ADestroy h -> Printf.printf " 2:%s" (hname h)
+        | ADestroyNow h -> Printf.printf " 0:%s" (hname h)
+        | ARemove (h, c) -> Printf.printf " 3:%s:%d" (hname h) (int_of_nat c)
+        | AAssign (h, c, _) -> Printf.printf " 4:%s:%d" (hname h) (int_of_nat c)) b;
+      print_newline () end) s.bufs;
+    Printf.printf "W %d %s\n" (int_of_n s.wv) (match s.cached with None -> "*" | Some v -> string_of_int (int_of_n v));
+    Printf.printf "E%s\n" (String.concat "" (Stdlib.List.map (fun e -> " " ^ ev_str e) (Stdlib.List.rev s.log)))
+
+  (* registration pre-scan: the driver registers a component at its first mention, in script order *)
+  let prescan (lines : string list) =
+    Hashtbl.reset cid_of_pal; next_cid := 0; Hashtbl.reset sid_of; next_sid := 0; Hashtbl.reset pal_flags;
+    let pal_tok t = if t.[0] = 's' then ignore (reg_shared (int_of_string (String.sub t 1 (String.length t - 1))))
+                    else ignore (reg_pal (int_of_string t)) in
+    Stdlib.List.iter (fun l -> match split_ws l with
+      | "reg" :: p :: rest -> let p = int_of_string p in
+          if not (Hashtbl.mem cid_of_pal p) then Hashtbl.replace pal_flags p (match rest with f :: _ -> int_of_string f | [] -> 0);
+          ignore (reg_pal p)
+      | "regs" :: p :: _ -> ignore (reg_shared (int_of_string p))
+      | ("create" | "createarch") :: _ :: pals -> Stdlib.List.iter pal_tok pals
+      | "cleararch" :: pals -> Stdlib.List.iter pal_tok pals
+      | ("assign" | "assignid" | "remove" | "removeid") :: _ :: _ :: p :: _ -> ignore (reg_pal (int_of_string p))
+      | ("getconst" | "getmut" | "set" | "has" | "markdirty") :: _ :: p :: _ -> ignore (reg_pal (int_of_string p))
+      | ("assignshared" | "removeshared" | "getshared") :: _ :: p :: _ -> ignore (reg_shared (int_of_string p))
+      | "dep" :: a :: pals -> ignore (reg_pal (int_of_string a)); Stdlib.List.iter pal_tok pals
+      | "chunkfn" :: _ :: _ :: pals -> Stdlib.List.iter pal_tok pals
+      | _ -> ()) lines;
+    let n = !next_cid in
+    let arr = Array.make n (Palette.pal_info O O) in
+    Hashtbl.iter (fun p c -> arr.(c) <- Palette.pal_info (nat_of_int p) (nat_of_int (try Hashtbl.find pal_flags p with Not_found -> 0))) cid_of_pal;
+    Array.to_list arr
+
+  let run_script name (lines : string list) =
+    print_endline name;
+    let cis = prescan lines in
+    (* restart registration so that R of `reg` prints the same ids as the driver *)
+    let maxthr = ref 16 in
+    Stdlib.List.iter (fun l -> match split_ws l with ["maxthreads"; n] -> maxthr := int_of_string n | _ -> ()) lines;
+    let st = ref (init (nat_of_int !maxthr) cis) in
+    issued := [];
+    let dead = ref false in
+    let opn = ref 0 in
+    let is_static p = p < 8 in
+    Stdlib.List.iter (fun l ->
+      let toks = split_ws l in
+      match toks with
+      | [] -> ()
+      | t :: _ when t.[0] = '#' -> ()
+      | _ when !dead -> ()
+      | opname :: args ->
+        Printf.printf "op %d %s\n" !opn l; incr opn;
+        let finish s' r = st := set_log s' []; print_endline ("R" ^ (if r = "" then "" else " " ^ r)); dump s' in
+        let apply o =
+          (match step !st o with
+           | Ok (s', out) ->
+             let r = (match out with
+               | RNone -> ""
+               | RHandle h -> issued := !issued @ [h];
+                   Printf.sprintf "#%d %d:%d" (Stdlib.List.length !issued - 1) (int_of_n (fst h)) (int_of_n (snd h))
+               | RBool b -> if b then "1" else "0"
+               | RCell (present, v) -> if not present then "null" else cell_str v
+               | RNullHandle -> "null") in
+             finish s' r
+           | Err e -> Printf.printf "ERR %s\n" (err_name e); dead := true) in
+        let ni s = nat_of_int (int_of_string s) in
+        let cid p = nat_of_int (reg_pal (int_of_string p)) in
+        let hasval p = int_of_string p <> 6 in
+        (match opname, args with
+         | "reg", p :: _ -> Printf.printf "R %d\n" (reg_pal (int_of_string p))
+         | "regs", p :: _ -> Printf.printf "R %d\n" (reg_shared (int_of_string p))
+         | ("maxthreads" | "threads" | "chunkcap"), _ -> print_endline "R"
+         | ("arm" | "disarm"), _ -> finish !st ""
+         | "create", tid :: pals -> let (m, sids) = parse_pals pals in
+             apply (OCreate (ni tid, n_of_int m, Stdlib.List.map nat_of_int sids, false))
+         | "createarch", tid :: pals -> let (m, sids) = parse_pals pals in
+             apply (OCreate (ni tid, n_of_int m, Stdlib.List.map nat_of_int sids, true))
+         | "destroy", [tid; h] -> apply (ODestroy (ni tid, parse_handle h))
+         | "destroynow", [tid; h] -> apply (ODestroyNow (ni tid, parse_handle h))
+         | "cleararch", pals -> let (m, sids) = parse_pals pals in apply (OClearArch (n_of_int m, Stdlib.List.map nat_of_int sids))
+         | "clear", _ -> apply OClear
+         | "update", _ -> apply (OUpdate true)
+         | "emupdate", _ -> apply (OUpdate false)
+         | "lock", _ -> apply OLock
+         | "unlock", _ -> apply OUnlock
+         | "assign", [tid; h; p; v] ->
+             let typed = is_static (int_of_string p) in
+             let av = if v = "-" || not (hasval p) then ADefault else AValue (z_of_int (int_of_string v)) in
+             apply (OAssign (ni tid, parse_handle h, cid p, av, typed))
+         | "assignid", [tid; h; p; v] ->
+             let av = if v = "-" || not (hasval p) then ADefault else AValue (z_of_int (int_of_string v)) in
+             apply (OAssign (ni tid, parse_handle h, cid p, av, false))
+         | "remove", [tid; h; p] -> apply (ORemove (ni tid, parse_handle h, cid p, is_static (int_of_string p)))
+         | "removeid", [tid; h; p] -> apply (ORemove (ni tid, parse_handle h, cid p, false))
+         | "assignshared", [h; sp; v] -> apply (OAssignShared (parse_handle h, nat_of_int (reg_shared (int_of_string sp)), z_of_int (int_of_string v)))
+         | "removeshared", [h; sp] -> apply (ORemoveShared (parse_handle h, nat_of_int (reg_shared (int_of_string sp))))
+         | "clone", [h] -> apply (OClone (parse_handle h))
+         | "getconst", [h; p] -> if hasval p then apply (OGetConst (parse_handle h, cid p)) else
+             (match step !st (OGetConst (parse_handle h, cid p)) with
+              | Ok (s', RCell (pr, _)) -> finish s' (if pr then "_" else "null") | _ -> dead := true)
+         | "getmut", [h; p] -> if hasval p then apply (OGetMut (parse_handle h, cid p, None)) else
+             (match step !st (OGetMut (parse_handle h, cid p, None)) with
+              | Ok (s', RCell (pr, _)) -> finish s' (if pr then "_" else "null") | Err e -> Printf.printf "ERR %s\n" (err_name e); dead := true | _ -> dead := true)
+         | "set", [h; p; v] -> apply (OGetMut (parse_handle h, cid p, Some (z_of_int (int_of_string v))))
+         | "has", [h; p] -> apply (OHas (parse_handle h, cid p))
+         | "markdirty", [h; p] -> apply (OMarkDirty (parse_handle h, cid p))
+         | "valid", [h] -> finish !st (if is_valid !st (parse_handle h) then "1" else "0")
+         | "dep", a :: pals -> let (m, _) = parse_pals pals in apply (ODep (cid a, n_of_int m))
+         | "verchunk", [n] -> apply (OVerChunk (ni n))
+         | "chunkfn", mn :: mx :: pals -> let (m, _) = parse_pals pals in apply (OChunkFn (ni mn, ni mx, n_of_int m))
+         | _ -> print_endline "ERR unsupported-op"; dead := true)) lines
+
+  let run () =
+    let cur_name = ref None and cur = ref [] in
+    let flush () = (match !cur_name with Some n -> run_script n (Stdlib.List.rev !cur) | None -> ()); cur := [] in
+    (try while true do
+      let l = input_line stdin in
+      if String.length l >= 4 && String.sub l 0 4 = "====" then (flush (); cur_name := Some l)
+      else cur := l :: !cur
+    done with End_of_file -> ());
+    flush ()
+end
 
 let run_lines f =
   try
@@ -67,4 +457,7 @@ let run_lines f =
 let () =
   match Array.to_list Sys.argv with
   | _ :: "leaf" :: _ -> run_lines leaf_line
+  | _ :: "skel" :: _ -> Sk.run ()
+  | _ :: "skelspec" :: _ -> SkS.run ()
+  | _ :: "mgr" :: _ -> Mg.run ()
   | _ -> prerr_endline "usage: runner <domain>"; exit 2
